@@ -1431,8 +1431,8 @@ fn main() {
         r.finish();
     }
 
-    let depth = r.pick(4, 5);
-    let seed_depth = r.pick(3, 3);
+    let depth = r.pick(4, 6);
+    let seed_depth = r.pick(3, 4);
     explore(&r, &mut g, &mut seen, &[], depth, true, "from_empty");
     // seeded strand states: S1 = strand child forked at the parent's tip (posture AtAnchor);
     // S2 = S1 + a pending child intent (so that two more ops reach overlapping parent movement)
